@@ -77,6 +77,10 @@ template <class T, int L, glm::qualifier Q> static void run_common_fp(pbt::Ctx& 
 	}
 	// step(edge, x): vec.vec and scalar.vec; x == edge is planted above (nn2[i] = nn[i], s = nn[i])
 	fn2<V, 5>(fc, "step", JBits(), nn2, nn, s, C01_F2(step), nullptr);
+	// step is a comparison plus a selection: with a NaN lane in x or in edge the vector overloads must still do what the scalar overload
+	// does with that component (x < edge is false, so 1)
+	fn2<V, 5>(fc, "step", JBits(), nn2, any, s, C01_F2(step), nullptr);
+	fn2<V, 5>(fc, "step", JBits(), any, nn, s, C01_F2(step), nullptr);
 	{ int lt = 0, eq = 0; for (int i = 0; i < L; ++i) { lt += nn[i] < nn2[i]; eq += nn[i] == nn2[i]; } if (eq) c.cls("step: x == edge in some lane"); if (lt > 0 && lt < L) c.cls("step: both outcomes among the lanes"); }
 	// mix with a floating-point interpolator: x*(1-a) + y*a
 	{
